@@ -274,13 +274,16 @@ def tp_is_integral(p):
     return True
 
 
-def tp_is_dyadic(p):
-    """every time field is a multiple of 1/4: all of the library's float
-    arithmetic on such values (x60, x3600, sums below 2**53) is exact, so the
-    exact regime applies although a decimal form is used"""
+def tp_is_dyadic(p, maxden=4096):
+    """every time field is a binary fraction with a small denominator (a
+    power of two up to `maxden`): all of the library's float arithmetic on
+    such values (x60, x3600, sums and differences below 2**53, % 1) is
+    exact, so the exact regime applies although a decimal form is used"""
     for v in (p._hour_of_day, p._minute_of_hour, p._second_of_minute):
-        if v is not None and 4 % F(v).denominator:
-            return False
+        if v is not None:
+            den = F(v).denominator
+            if den > maxden or den & (den - 1):
+                return False
     return True
 
 
